@@ -116,11 +116,13 @@ func checkRegistryAfterBlock(t *rapid.T, h *sim.History, blk *types.Block) (sawP
 					if staleOnline[w][a.Addr] {
 						continue // consequence of the known finding met earlier in this history
 					}
-					// known finding: a pending status switch of an address that WAS a pool before this block, is not
-					// validated, and stops being a pool inside this very block (its last delegator is terminated /
-					// leaves) is applied against the one-block-old pool view: the address is switched online
+					// known finding: a pending status switch of an address that WAS a pool AND a validated identity before
+					// this block, is terminated inside this very block and loses its last delegator in it as well, is
+					// applied against the one-block-old pool view (switched online), and the switch-off step at the end
+					// of the block still counts the terminated owner as a member of its own pool. A pool whose owner was
+					// not validated before the block is NOT this finding (the switch-off step takes such a pool back).
 					if prev, err := r.AppState.Readonly(blk.Height() - 1); err == nil && blk.Header.Flags().HasFlag(types.IdentityUpdate) &&
-						prev.ValidatorsCache.IsPool(a.Addr) && (prev.State.HasStatusSwitchAddresses(a.Addr) || switchedInBlock(blk, a.Addr)) {
+						prev.ValidatorsCache.IsPool(a.Addr) && prev.IdentityState.IsValidated(a.Addr) && (prev.State.HasStatusSwitchAddresses(a.Addr) || switchedInBlock(blk, a.Addr)) {
 						if kf.Report(t, "C10", kfStalePoolSwitch, "after %s: %s is online but neither validated nor a pool (it was a pool before this block and had a status switch pending)\nhistory:\n%s", sim.BlockDesc(blk), a, h.Summary()) {
 							if staleOnline[w] == nil {
 								staleOnline = map[*sim.World]map[common.Address]bool{w: {}}
